@@ -1,7 +1,7 @@
 (* Property C10 - chain: concatenation in order with strictly sequential evaluation. *)
 From Coq Require Import List Arith Bool.
 Import ListNotations.
-Require Import ScanFull InstsFull Pass C11Groups PassProofs Monitors C02Join C02Merge PassLedger.
+Require Import ScanFull InstsFull Pass C11Groups PassProofs Monitors C02Join C02Merge PassLedger LivePass.
 
 (* [Pc s fin t]: the sequential automaton runC (state = index of the current input; a poll must be of the current input, only an End
    answer advances it) accepts the poll list and ends in the model's index; the results are exactly the items the inputs answered, in that
@@ -31,3 +31,20 @@ Theorem C10_sequential_predicate_holds scs ops :
   dropped _ w = false -> chain_b (strip (tr _ w)) = true.
 Proof. exact (chain_b_holds scs ops). Qed.
 Print Assumptions C10_sequential_predicate_holds.
+
+(* ---- "returns None when the last input has ended": it does.  Inputs scripted (Pending | Item)* then End (zero inputs included): under EVERY schedule
+        of waker invocations and polls containing more than s polls, s the number of Pending and Item answers scripted before the Ends, the chained
+        stream has returned None and is finished; C10_chain_sequential says what was returned before: all items of the first input in order, then
+        all items of the second, and so on.  (chain keeps no readiness of its own: every poll polls the current input, so nothing depends on which
+        wakers fired - only on being polled, which C01_chain guarantees under a wake-driven executor.) *)
+Theorem C10_chain_ends_under_any_schedule scs ops :
+  (forall i, i < length scs -> goods (nth i scs []) = true) -> sched ops -> stot 0 scs < npolls ops ->
+  let w := chain_world scs ops in finished _ w = true /\ dropped _ w = false.
+Proof. exact (chain_ends scs ops). Qed.
+Print Assumptions C10_chain_ends_under_any_schedule.
+Example C10_ends_witness :
+  let P := {| fires := []; answer := APend |} in let I v := {| fires := []; answer := AItem v |} in let E := {| fires := []; answer := AEnd |} in
+  stot 0 [[P; I 1; E]; [I 5; E]] = 3 /\
+  map (fun k => (finished _ (chain_world [[P; I 1; E]; [I 5; E]] (repeat OPollFresh k)), results (strip (tr _ (chain_world [[P; I 1; E]; [I 5; E]] (repeat OPollFresh k)))))) [3; 4] =
+    [(false, [OSome None [1]; OSome None [5]]); (true, [OSome None [1]; OSome None [5]; ONone])].
+Proof. vm_compute. split; reflexivity. Qed.
